@@ -116,8 +116,11 @@ class PropertyRun:
         allobs = []
         for q in plan.FUNCTIONS:
             c = world.contracts[q]
+            c._key = q
             t = time.time()
-            rep = verify_function(world, c)
+            from .contract import verify_fragment
+            rep = verify_fragment(world, c) if getattr(c, 'is_fragment', False) else verify_function(world, c)
+            rep.contract = c
             reports.append(rep)
             allobs.extend(rep.obligations)
             self.log("  [vcgen] %-45s configs=%d paths=%d (ret %d / raise %d) obligations=%d  %.1fs%s" % (
@@ -134,7 +137,7 @@ class PropertyRun:
         """sat -> replay on the real code; unknown/error/unsupported -> small-scope refutation, else undecided"""
         world = self.world
         for rep in self.reports:
-            c = world.contracts[rep.qualname]
+            c = self.contract_of(rep)
             for cfgname, why in rep.unsupported:
                 self.undecided.append({'obligation': '%s[%s]' % (rep.qualname, cfgname), 'reason': 'unsupported: ' + why})
             if getattr(c, 'expect_returns', True) and rep.returns == 0 and not rep.unsupported:
@@ -168,6 +171,9 @@ class PropertyRun:
                         why = 'invariant not inductive / obligation downstream of a havoc refuted (sat)' if ob.result == 'sat' else '%s (%s)' % (ob.result, ob.detail)
                         self.undecided.append({'obligation': ob.name, 'reason': why})
 
+    def contract_of(self, rep):
+        return getattr(rep, 'contract', None) or self.world.contracts[rep.qualname]
+
     def cfg_name_of(self, ob):
         nm = ob.name
         i = nm.index('[')
@@ -181,7 +187,11 @@ class PropertyRun:
         from .contract import verify_function
         for scope in c.scopes(cfg):
             try:
-                r2 = verify_function(self.world, c, only_cfg=cname, scope=scope)
+                if getattr(c, 'is_fragment', False):
+                    from .contract import verify_fragment
+                    r2 = verify_fragment(self.world, c, only_cfg=cname, scope=scope)
+                else:
+                    r2 = verify_function(self.world, c, only_cfg=cname, scope=scope)
             except Exception:
                 continue
             smt.discharge(r2.obligations, tier='quick', seed=self.seed)
@@ -192,7 +202,57 @@ class PropertyRun:
                         return True
         return False
 
+    def replay_fragment(self, qualname, c, cfg, ob, seen, scope=None):
+        """counter-model of a fragment obligation -> concrete fragment state -> the contract's own
+        replay on the real (whole) function"""
+        from .concrete import to_json, eval_int
+        info = {'property': self.pid, 'obligation': ob.name, 'function': qualname, 'fragment': getattr(c, 'key', qualname), 'cfg': cfg,
+                'scope': scope, 'solver': {'result': 'sat', 'backend': ob.backend, 'seconds': round(ob.seconds, 3)}}
+        try:
+            ctx = Ctx((), fname='concretize')
+            A = ArgFactory(ctx, scope)
+            env = c.make_env(cfg, A)
+            syms = [v for v in env.values() if isinstance(v, z3.ExprRef) and z3.is_int(v)]
+            from .tensor import Tn
+            for v in env.values():
+                if isinstance(v, Tn):
+                    syms.extend([d for d in v.shape if O.is_sym(d)])
+            model = None
+            for bound in (4, 8, None):
+                extra = [z3.And(x <= bound, x >= -bound) for x in syms] if bound else []
+                model = smt.model_for(ob, extra=extra)
+                if model is not None:
+                    break
+            if model is None:
+                return False
+            state = {}
+            for k, v in env.items():
+                if isinstance(v, z3.ExprRef):
+                    state[k] = z3.is_true(model.eval(v, model_completion=True)) if z3.is_bool(v) else eval_int(model, v)
+                elif isinstance(v, Tn):
+                    state[k + '.shape'] = [eval_int(model, d) for d in v.shape]
+                elif isinstance(v, (int, bool, str)) or v is None:
+                    state[k] = v
+            key = json.dumps(state, sort_keys=True, default=str)
+            if key in seen:
+                return False
+            seen.add(key)
+            info['fragment_state'] = state
+            viol = c.replay_fragment(cfg, state)
+            info['contract_violations'] = viol
+            if viol:
+                path = self.write_replay(info)
+                self.violations.append({'what': '%s: %s' % (ob.name, viol[0]), 'replay': path, 'finding': None, 'obligation': ob.name})
+                return True
+        except Exception:
+            self.replay_errors = getattr(self, 'replay_errors', [])
+            if len(self.replay_errors) < 3:
+                self.replay_errors.append(traceback.format_exc()[-800:])
+        return False
+
     def replay_counter_model(self, qualname, c, cfg, ob, seen, scope=None):
+        if getattr(c, 'is_fragment', False):
+            return self.replay_fragment(qualname, c, cfg, ob, seen, scope)
         from .concrete import check_concrete, to_json
         info = {'property': self.pid, 'obligation': ob.name, 'function': qualname, 'cfg': cfg, 'scope': scope,
                 'solver': {'result': 'sat', 'backend': ob.backend, 'seconds': round(ob.seconds, 3)}}
@@ -419,6 +479,16 @@ def replay_file(pid, path):
     from .concrete import check_concrete, from_json
     from .models import FACTORIES
     world = build_world(plan)
+    if 'fragment' in info:
+        c = world.contracts[info['fragment']]
+        viol = c.replay_fragment(info['cfg'], info['fragment_state'])
+        for v in viol:
+            print("  still violates:", v)
+        if viol:
+            print("VIOLATION property=%s replay=%s" % (pid, path))
+            return 1
+        print("replay: the stored fragment state satisfies the contract on the current tree")
+        return 0
     c = world.contracts[info['function']]
     mod, _, name = info['function'].rpartition('.')
     pyfn = getattr(importlib.import_module(mod), name)
